@@ -308,4 +308,78 @@ theorem l3_send (s : DrvState) (L : LinkCfg) (P : List Bytes) (ce : Bool) (buf :
   rw [S.others i (by rw [q1]; exact hi)]
   exact q4 i hi
 
+/-- **`l3_send` with the PID sequence** (a strengthening used for histories in which the receiver has
+    accepted packets before; `L3Contracts.send` itself is unchanged): the packet `send` puts on the air
+    carries the sender's `nextPid` — which is therefore the PID the acknowledging radio records in its
+    `lastRx` (`Radio.receive`) — and the sender's `nextPid` advances by one modulo 4. -/
+theorem l3_send_pid (s : DrvState) (L : LinkCfg) (P : List Bytes) (ce : Bool) (buf : Bytes) (j : Nat) (hw : s.Wf)
+    (hN : NodeRadio L P false ce 0x3F s.d s.radio) (hta : s.radio.txAddr = s.radio.rxAddr0)
+    (hl1 : 1 ≤ buf.length) (hl32 : buf.length ≤ 32) (hflt : s.w.faults = []) (hj : j ≠ s.d.rid)
+    (hack : ((s.w.radio j).receive (s.packet buf)).2 = some none) :
+    ∃ s', exec (Rf24.send buf false false 0 true) s = (.ok (.bool true, buf), s') ∧
+      s'.d.rid = s.d.rid ∧ s'.w.radios.length = s.w.radios.length ∧ s'.w.faults = [] ∧
+      (∀ i, i ≠ s.d.rid → s'.w.radio i = ((s.w.radio i).receive (s.packet buf)).1) ∧
+      NodeRadio L P false true 0x3F s'.d s'.radio ∧ s'.radio.rxFifo = s.radio.rxFifo ∧
+      s'.radio.lastRx = s.radio.lastRx ∧ s'.radio.rxAddr0 = s.radio.rxAddr0 ∧
+      s'.radio.txAddr = s.radio.txAddr ∧
+      (s.packet buf).pid = s.radio.nextPid ∧ s'.radio.nextPid = (s.radio.nextPid + 1) % 4 := by
+  obtain ⟨h1, h2, h3, h4, h5, h6, h7, h8, h9, h10, h11, h12, h13, h14, h15, h16, h17, h18, h19, h20, h21, h22,
+    h23, h24, h25, h26, h27, h28, h29⟩ := hN
+  have key : RunW s.w (Rf24.send buf false false 0 true) s.d s.radio (fun a d' r' w1 =>
+      a = (.bool true, buf) ∧ d'.rid = s.d.rid ∧ w1.radios.length = s.w.radios.length ∧ w1.faults = [] ∧
+      (∀ i, i ≠ s.d.rid → w1.radio i = ((s.w.radio i).receive (s.packet buf)).1) ∧
+      NodeRadio L P false true 0x3F d' r' ∧ r'.rxFifo = s.radio.rxFifo ∧ r'.lastRx = s.radio.lastRx ∧
+      r'.rxAddr0 = s.radio.rxAddr0 ∧ r'.txAddr = s.radio.txAddr ∧
+      r'.nextPid = (s.radio.nextPid + 1) % 4) := by
+    -- the peer exists
+    have hjl : j < s.w.radios.length := by
+      apply Classical.byContradiction
+      intro h
+      rw [radio_default _ _ h, default_receive] at hack
+      cases hack
+    have hp : s.radio.rxPNo ≤ 7 := by
+      unfold Radio.rxPNo
+      cases hfifo : s.radio.rxFifo with
+      | nil => exact Nat.le_refl 7
+      | cons e rest => exact Nat.le_trans (h29 e (by rw [hfifo]; exact List.mem_cons_self)) (by decide)
+    -- the common tail of both branches
+    have tail : ∀ (st : Nat) (tf : List TxEntry), tf = [] →
+        RunW s.w (sendTail buf) { s.d with status := st } { s.radio with ce := false, txFifo := tf }
+          (fun a d' r' w1 =>
+            a = (.bool true, buf) ∧ d'.rid = s.d.rid ∧ w1.radios.length = s.w.radios.length ∧ w1.faults = [] ∧
+            (∀ i, i ≠ s.d.rid → w1.radio i = ((s.w.radio i).receive (s.packet buf)).1) ∧
+            NodeRadio L P false true 0x3F d' r' ∧ r'.rxFifo = s.radio.rxFifo ∧ r'.lastRx = s.radio.lastRx ∧
+            r'.rxAddr0 = s.radio.rxAddr0 ∧ r'.txAddr = s.radio.txAddr ∧
+            r'.nextPid = (s.radio.nextPid + 1) % 4) := by
+      intro st tf htf
+      subst htf
+      refine (runW_sendTail (d := { s.d with status := st }) (r := { s.radio with ce := false, txFifo := [] }) buf j hl1 hl32
+        (by rw [h15]; decide) rfl rfl hp hflt
+        (by simp [Radio.pwrUp, h2]) h3 h9 (by rw [h13]; decide) (by simp [canHear, Radio.bit, h11, hta]) hjl hj
+        (by
+          show ((s.w.radio j).receive (s.packet buf)).2.isSome = true
+          rw [hack]; rfl)).conseq ?_
+      rintro _ _ _ w1 ⟨rfl, ⟨st', rfl⟩, rfl, hf1, hlen1, ho1⟩
+      exact ⟨rfl, rfl, hlen1, hf1, ho1, ⟨h1, h2, h3, rfl, h5, h6, h7, h8, h9, h10, h11, h12, h13, h14, h15, h16,
+        h17, h18, h19, h20, h21, h22, h23, h24, h25, rfl, h27, h28, h29⟩, rfl, rfl, rfl, rfl, rfl⟩
+    unfold Rf24.send
+    simp only [Bool.not_true, Bool.false_eq_true, false_and, and_false, ↓reduceIte]
+    refine RunW.bind (run_setCE false (Or.inl h26)).toW ?_
+    rintro _ _ _ _ ⟨rfl, rfl, rfl⟩
+    refine RunW.bind run_getD.toW ?_
+    rintro _ _ _ _ ⟨rfl, rfl, rfl, rfl⟩
+    split
+    · unfold flushTx
+      refine RunW.bind (run_regCmd 0xE1 (Or.inl (by rw [xfer_flushTx]))).toW ?_
+      rintro _ _ _ _ ⟨rfl, rfl, rfl⟩
+      rw [xfer_flushTx]
+      exact tail _ [] rfl
+    · exact tail s.d.status s.radio.txFifo h26
+  obtain ⟨_, s', w1, e, S, rfl, q1, q2, q3, q4, q5, q6, q7, q8, q9, q10⟩ := key.start hw
+  refine ⟨s', e, q1, S.len.trans q2, S.faults.trans q3, ?_, q5, q6, q7, q8, q9, rfl, q10⟩
+  intro i hi
+  rw [S.others i (by rw [q1]; exact hi)]
+  exact q4 i hi
+
+
 end Nrf.L3
